@@ -16,31 +16,6 @@ open Percival.Proofs.EvRegTimer (regImm regTimers TmInv Step Granted)
 open Percival.Proofs.EArray (malloc_ok malloc_fail free_facts)
 open Percival.Model.Connect (AddrOutcome)
 
-/-- one call and its outcome; `.contract`: the call is outside the usage contract and is not made -/
-def stepR (w : World) : Op → Rc × World
-  | .read fd => match networkRead w fd with | (some _, w') => (.ok, w') | (none, w') => (.fail, w')
-  | .readCancel c => if readOwned w c then (.contract, w) else
-      match networkReadCancel w c with | some w' => (.ok, w') | none => (.contract, w)
-  | .write fd => match networkWrite w fd with | (some _, w') => (.ok, w') | (none, w') => (.fail, w')
-  | .writeCancel c => if writeOwned w c then (.contract, w) else
-      match networkWriteCancel w c with | some w' => (.ok, w') | none => (.contract, w)
-  | .accept fd => match networkAccept w fd with | (some _, w') => (.ok, w') | (none, w') => (.fail, w')
-  | .acceptCancel c => match networkAcceptCancel w c with | some w' => (.ok, w') | none => (.contract, w)
-  | .connect addrs timeo s => match networkConnect w addrs timeo s with | (some _, w') => (.ok, w') | (none, w') => (.fail, w')
-  | .connectCancel c => if connOwned w c then (.contract, w) else
-      match networkConnectCancel w c with | some w' => (.ok, w') | none => (.contract, w)
-  | .nbrInit fd => match netbufReadInit w fd with | (some _, w') => (.ok, w') | (none, w') => (.fail, w')
-  | .nbrWait r len => netbufReadWait w r len
-  | .nbrCancel r => match netbufReadWaitCancel w r with | some w' => (.ok, w') | none => (.contract, w)
-  | .nbrFree r => match netbufReadFree w r with | some w' => (.ok, w') | none => (.contract, w)
-  | .nbwInit fd => match netbufWriteInit w fd with | (some _, w') => (.ok, w') | (none, w') => (.fail, w')
-  | .nbwReserve x len => netbufWriteReserve w x len
-  | .nbwConsume x len => netbufWriteConsume w x len
-  | .nbwWrite x len => netbufWriteWrite w x len
-  | .nbwFree x => match netbufWriteFree w x with | some w' => (.ok, w') | none => (.contract, w)
-  | .http addrs headlen s => match httpRequest w addrs headlen s with | (some _, w') => (.ok, w') | (none, w') => (.fail, w')
-  | .httpCancel h => match httpRequestCancel w h with | some w' => (.ok, w') | none => (.contract, w)
-
 theorem step_eq (w : World) (op : Op) : step w op = (stepR w op).2 := by
   cases op <;> simp only [step, stepR, orSame]
   case read fd => rcases networkRead w fd with ⟨_ | _, _⟩ <;> rfl
